@@ -75,7 +75,7 @@ replay = P.replay
 # every function of dnplab.processing (and the NumPy entry points) that returns a data object, by registry name of C03
 PROCESSING = {"apodize", "fourier_transform", "inverse_fourier_transform", "phase", "phase_cycle", "phase_cycle-array", "phase-array-p1",
               "autophase", "integrate", "integrate-regions", "integrate-regions-kept", "cumulative_integrate", "remove_background",
-              "remove_background-regions", "left_shift", "normalize", "normalize-dim", "smooth", "interp", "interp-list", "ndalign",
+              "remove_background-regions", "remove_background-func", "background-func", "left_shift", "normalize", "normalize-dim", "smooth", "interp", "interp-list", "ndalign",
               "average", "signal_to_noise", "reference", "pseudo_modulation", "create_complex-arrays", "create_complex-kept",
               "np.abs", "np.max-axis"}
 
@@ -101,7 +101,8 @@ def registry_history(tier, seed):
                 real = ["numpy.mean", "autophase", "average", "integrate", "window", "numpy.sum", "normalized"]
                 hist = [((real[(j + len(name)) % len(real)] if j % 2 == 0 else "step%d" % j), {"p": [1, j], "q": np.arange(3.0)})
                         for j in range(nh)]
-                d = dnp.DNPData(vals, list(dims), coords, proc_attrs=copy.deepcopy(hist))
+                # an input with no history is built the way a user builds it: without the proc_attrs argument
+                d = dnp.DNPData(vals, list(dims), coords, proc_attrs=copy.deepcopy(hist)) if nh else dnp.DNPData(vals, list(dims), coords)
                 res = None
                 with warnings.catch_warnings():
                     warnings.simplefilter("ignore")
@@ -111,6 +112,11 @@ def registry_history(tier, seed):
                         except Exception:  # noqa: BLE001
                             res = None
                 n_eval += 1
+                # whatever the step did, an object constructed afterwards starts with an EMPTY history
+                if list(dnp.DNPData(np.zeros(2), ["x"], [np.arange(2.0)]).proc_attrs):
+                    key = "C11:fresh-object-history-not-empty:" + name
+                    fails.append({"key": key, "clause": key, "ops": [{"function": name, "shape": shape, "dim_pos": k}]})
+                    break
                 if not isinstance(res, dnp.DNPData):
                     continue
                 seen_fn.add(name)
